@@ -173,6 +173,7 @@ int main(int argc, char **argv) {
                 }
             } else if (kind == 'F') {
                 long es = strtol(p, NULL, 10);
+                rq_n = rq_pos = 0;          /* rnd draws one number for the flushed task: 0, as in the model */
                 __parsec_schedule_flush_private(ES(es));
             } else if (kind == 'L' || kind == 'N') {
                 long es = strtol(p, NULL, 10); int dist = 0;
